@@ -21,7 +21,8 @@ func TestMain(m *testing.M) {
 			"tagged version with 0-3 requirements on arbitrary other tagged versions: diamonds, cycles, several majors) and 0-4 named root requirements. "+
 			"Oracle: mvs.BuildList equals an independent reference (BFS over all reachable (path, version) nodes, semver maximum per path, each path once); "+
 			"metamorphic: the same answer from a warm resolver, a new resolver on the warm cache directory, a cold cache directory, and with every "+
-			"requirement name in the universe and the root renamed (which changes declaration/sort order). Non-trivial = some selected version is not "+
+			"requirement name in the universe and the root renamed (which changes declaration/sort order); and, with an injected transient fetch failure of one "+
+			"project, from the retry on the same resolver. Non-trivial = some selected version is not "+
 			"a version the root requires directly, or the reachable graph has a cycle, or two majors of one project are selected. Distinct by case JSON.",
 		"universes are served by a fake vcs.Repository through a verif-tagged dialer adapter; the download cache is a scratch directory",
 	)
@@ -31,6 +32,7 @@ func TestMain(m *testing.M) {
 type Case struct {
 	U    mvssim.Universe  `json:"u"`
 	Root []mvssim.RootReq `json:"root"`
+	Fail int              `json:"fail"` // project whose first fetch fails in the fault-injection pass (-1 = none)
 }
 
 func hasCycle(u *mvssim.Universe, root []mvssim.RootReq) bool {
@@ -144,6 +146,29 @@ func exec(c Case) (v ev.Verdict) {
 	if err != nil || !reflect.DeepEqual(strip(got3), want) {
 		return ev.Failf("warm-disk-differs", "BuildList with a warm download cache = %v (err %v), want %v", got3, err, want)
 	}
+	// a transient fetch failure, then a retry on the same resolver (cold cache): the retry must give the
+	// same answer (or fail again), never a shorter list
+	if c.Fail >= 0 {
+		cache3, _ := os.MkdirTemp("", "c10-cache-")
+		defer os.RemoveAll(cache3)
+		repo5 := mvssim.NewRepo(u)
+		repo5.FailOnce = c.Fail % u.NProj
+		res5 := mvs.NewResolver(cache3, repo5.Dialer(), nil)
+		first, err1 := mvs.BuildList(ctx, cfg, res5)
+		if err1 == nil && !reflect.DeepEqual(strip(first), want) {
+			return ev.Failf("fault-wrong-list", "BuildList with a failing fetch returned %v without an error, want %v", first, want)
+		}
+		if err1 != nil {
+			v.Classes = append(v.Classes, "fetch-fault-hit")
+			second, err2 := mvs.BuildList(ctx, cfg, res5)
+			if err2 == nil && !reflect.DeepEqual(strip(second), want) {
+				return ev.Failf("retry-after-fault-differs", "after a transient fetch failure (%v) the retry on the same resolver returned %v, want %v", err1, strip(second), want)
+			}
+			if err2 != nil {
+				return ev.Failf("retry-after-fault-fails", "after a transient fetch failure (%v) the retry fails although the fault is gone: %v", err1, err2)
+			}
+		}
+	}
 	// cold cache, renamed requirements everywhere
 	repo4 := mvssim.NewRepo(u)
 	repo4.NameSalt = "zz-"
@@ -162,6 +187,10 @@ func exec(c Case) (v ev.Verdict) {
 func TestC10(t *testing.T) {
 	ev.Explore(run, t, "buildlist", run.N(600, 6000), func(rt *rapid.T) Case {
 		u := mvssim.GenUniverse(rt)
-		return Case{U: u, Root: mvssim.GenRoot(rt, &u)}
+		c := Case{U: u, Root: mvssim.GenRoot(rt, &u), Fail: -1}
+		if rapid.IntRange(0, 2).Draw(rt, "fault") == 2 {
+			c.Fail = rapid.IntRange(0, 6).Draw(rt, "failproj")
+		}
+		return c
 	}, exec)
 }
